@@ -41,7 +41,7 @@ inductive Ans
   | ret
   | raise
   | poll (sd : List (Nat × St)) (res : List Res)   -- `fetch_status_results`
-  | decision (d : Decision)                        -- `on_trial_result`
+  | decision (d : Decision) (m : Option Metrics)   -- `on_trial_result`; `m`: the result dict if the scheduler changed it
   | ids (l : List Nat)                             -- `busy_trial_ids`, `trials_checkpoints_can_be_removed`
   | sugg (s : Sugg)                                -- `suggest`
   | clock (t : Rat)                                -- `status.wallclock_time`
@@ -333,6 +333,12 @@ def nextResult (s : LState) : List Res → LState × Call
         ({ s with pc := .decision, cur := r, curSt := st, rest := rest,
                   lastSeen := aset r.tid r.rid s.lastSeen }, .schedResult r.tid r.rid)
 
+/-- the scheduler changed the result dict it was handed (e.g. `HyperbandScheduler` adds the total cost). -/
+def Res.withMetrics (r : Res) (m : Metrics) : Res := { tid := r.tid, rid := r.rid, m := m }
+
+def setMetrics (rid : Nat) (m : Metrics) (l : List Res) : List Res :=
+  l.map (fun r => if r.rid = rid then r.withMetrics m else r)
+
 /-! ### the machine -/
 
 def stepCore (s : LState) (a : Ans) : LState × Call :=
@@ -355,7 +361,11 @@ def stepCore (s : LState) (a : Ans) : LState × Call :=
     | .ret => if s.running.length ≤ s.cfg.nWorkers then nextResult s s.rest else raiseFin s .assertion
     | _ => raiseFin s .env
   | .decision => match a with
-    | .decision d => ({ s with pc := .cbResult, curD := d }, .cb (.result s.cur.tid s.cur.rid d s.curSt))
+    | .decision d m =>
+      let s1 := match m with
+        | some m' => { s with cur := s.cur.withMetrics m', allRes := setMetrics s.cur.rid m' s.allRes }
+        | none => s
+      ({ s1 with pc := .cbResult, curD := d }, .cb (.result s1.cur.tid s1.cur.rid d s1.curSt))
     | _ => raiseFin s .env
   | .cbResult => match a with
     | .ret =>
